@@ -30,9 +30,14 @@ import (
 //	    any other operator must stay;
 //	(1) L is a protected column and R a literal: the literal's value and literal type may
 //	    change (the CastType, sign folding etc. are still compared); `_binary <literal>` is a
-//	    literal spelling (the introducer may go when the value becomes a hex literal);
+//	    literal spelling: the introducer may go TOGETHER WITH a substitution of the value (the
+//	    sent literal differs from the received one in type or bytes: a search hash as a hex
+//	    number, a token). `col > _binary 'abc'` sent as `col > 'abc'` - the same value without
+//	    the introducer - is no substitution: the database compares by the column's collation
+//	    instead of byte-wise, another meaning;
 //	(4) `value = column`, `value != column`, `value <=> column` may be sent with the operands
-//	    exchanged (symmetric operators; what the PostgreSQL observers do).
+//	    exchanged (symmetric operators; what the PostgreSQL observers do); the value may be any
+//	    literal, a float included.
 //
 // Assignments: a literal (possibly inside parentheses or under a unary operator such as
 // _binary, as encryptor/mysql.UpdateExpressionValue looks through them) at a VALUES position
@@ -129,6 +134,14 @@ func myValueKind(e sqlparser.Expr) string {
 	return myLitKind(e)
 }
 
+// mySwapValue: a value that may change sides with a column under a symmetric operator.
+func mySwapValue(e sqlparser.Expr) bool {
+	if v, ok := e.(*sqlparser.SQLVal); ok && v.Type == sqlparser.FloatVal {
+		return true
+	}
+	return myValueKind(e) != ""
+}
+
 func myLitKind(e sqlparser.Expr) string {
 	v, ok := e.(*sqlparser.SQLVal)
 	if !ok {
@@ -202,8 +215,8 @@ func myUndoCmp(c0, c1 *sqlparser.ComparisonExpr, d *obsDesc, u *undoLog) {
 	// ones do - the same permission for both)
 	switch c0.Operator {
 	case sqlparser.EqualStr, sqlparser.NotEqualStr, sqlparser.NullSafeEqualStr:
-		if _, rcol := c0.Right.(*sqlparser.ColName); rcol && myValueKind(c0.Left) != "" {
-			if myValueKind(c1.Left) == "" && myValueKind(c1.Right) != "" {
+		if _, rcol := c0.Right.(*sqlparser.ColName); rcol && mySwapValue(c0.Left) {
+			if !mySwapValue(c1.Left) && mySwapValue(c1.Right) {
 				c0.Left, c0.Right = c0.Right, c0.Left
 				u.swapped++
 			}
@@ -250,9 +263,12 @@ func myUndoCmp(c0, c1 *sqlparser.ComparisonExpr, d *obsDesc, u *undoLog) {
 	if lkey != "" && d.has(d.Prot, lkey) && rKind == "lit" {
 		// `_binary <literal>` may be sent as a plain (hex) literal: the introducer belongs to the
 		// literal's spelling
-		if _, intro := myBinaryIntroducer(c0.Right); intro && myLitKind(c1.Right) == "lit" {
-			c1.Right = c0.Right
-			u.cmpLit++
+		if v0, intro := myBinaryIntroducer(c0.Right); intro && myLitKind(c1.Right) == "lit" {
+			// only together with a substitution of the value
+			if v1 := c1.Right.(*sqlparser.SQLVal); v1.Type != v0.Type || !bytes.Equal(v1.Val, v0.Val) {
+				c1.Right = c0.Right
+				u.cmpLit++
+			}
 		} else if myUndoLit(c0.Right, c1.Right) {
 			u.cmpLit++
 		}
@@ -309,6 +325,27 @@ func myUndo(t0, t1 sqlparser.Statement, d *obsDesc) *undoLog {
 		}
 	}
 	return u
+}
+
+// myIntroducerLost: some comparison of the received statement has `_binary <literal>` on its
+// right and the sent statement has, at the same comparison, the same literal (type and bytes)
+// without the introducer: a comparison nobody substituted a value in was re-serialised from a
+// tree somebody had normalised.
+func myIntroducerLost(t0, t1 sqlparser.Statement) bool {
+	c0, c1 := myComparisons(t0), myComparisons(t1)
+	if len(c0) != len(c1) {
+		return false
+	}
+	for i := range c0 {
+		v0, ok := myBinaryIntroducer(c0[i].Right)
+		if !ok {
+			continue
+		}
+		if v1, ok := c1[i].Right.(*sqlparser.SQLVal); ok && v1.Type == v0.Type && bytes.Equal(v1.Val, v0.Val) {
+			return true
+		}
+	}
+	return false
 }
 
 // myDiffClass names the failure class of a tree difference.
